@@ -179,3 +179,169 @@ def frame_obligations():
 
 
 TARGETS = {"action_step": target_action_step}
+
+
+def target_mark_error():
+    """lr1.Parser.mark_error (C09: the error message attached to an erroneous token sequence): given the outcome of parsing
+    the example (contract of Parser.parse: success, or an error at some token in some state),
+
+       example parses                         -> a message, nothing recorded
+       error at another token than stated     -> a message, nothing recorded
+       error at the stated token (or at end of input for error_token None):
+           ANY_TOKEN      -> default_errors[state] = code     unless a DIFFERENT code is already there (message, unchanged)
+           otherwise      -> action[state][symbol] = Error(code)   unless a DIFFERENT code is there (message, unchanged)
+       recording the same code twice is accepted; no other state / terminal is written."""
+    lr1 = importlib.import_module("compiler.front_end.lr1")
+    eng = pyvc.Engine()
+    eng.contract(lr1.Error, lambda interp, code: ("Error", code), "Error")
+
+    def harness(c):
+        outcome = c.choice("example", ["parses", "fails-at-stated-token", "fails-at-other-token", "fails-at-end-of-input"])
+        stated = c.choice("stated-error-token", ["a-token", "ANY_TOKEN", "None(end-of-input)"])
+        existing = c.choice("existing-entry", ["none", "same-code", "different-code"])
+        tok = GObj("stated-token", attrs={"symbol": "t"})
+        other = GObj("other-token", attrs={"symbol": "u"})
+        end_tok = GObj("end-token", attrs={"symbol": lr1.END_OF_INPUT})
+        error_token = {"a-token": tok, "ANY_TOKEN": lr1.ANY_TOKEN, "None(end-of-input)": None}[stated]
+        if outcome == "parses":
+            result = SRec("ParseResult", {"parse_tree": "TREE", "error": None})
+        else:
+            at = {"fails-at-stated-token": error_token if error_token is not None else tok, "fails-at-other-token": other, "fails-at-end-of-input": end_tok}[outcome]
+            result = SRec("ParseResult", {"parse_tree": None, "error": SRec("ParseError", {"code": None, "index": 3, "token": at, "state": 7, "expected_tokens": None})})
+        symbol = lr1.END_OF_INPUT if error_token is None else ("t" if stated == "a-token" else lr1.ANY_TOKEN.symbol)
+        old = {"none": None, "same-code": "CODE", "different-code": "OTHER"}[existing]
+        present = old is not None
+        row = GDict({symbol: present, "w": True}, {symbol: lr1.Error(old) if present else None, "w": lr1.Error("W")}, label="action[7]")
+        defaults = GDict({7: present, 8: True}, {7: old, 8: "D8"}, label="default_errors")
+        action = {7: row, 8: GDict({"w": True}, {"w": "X"}, label="action[8]")}
+        me = GObj("parser", methods={"parse": lambda interp, obj, tokens: result}, attrs={"default_errors": defaults, "action": action})
+        c.covered = True
+        st, msg = pyvc.run_body(c, "compiler.front_end.lr1.Parser.mark_error", [me, ["TOKENS"], error_token, "CODE"])
+        matches = (outcome == "fails-at-stated-token" and error_token is not None) or (outcome == "fails-at-end-of-input" and error_token is None)
+        untouched_row = row.entries[symbol] is (None if not present else row.entries[symbol]) and row.present[symbol] is present
+        row_same = (row.present[symbol] is present) and (not present or (isinstance(row.entries[symbol], lr1.Error) and row.entries[symbol].code == old))
+        def_same = defaults.present[7] is present and defaults.entries[7] == old
+        frame = row.entries["w"] == lr1.Error("W") and defaults.entries[8] == "D8" and action[8].entries["w"] == "X" and set(row.entries) == {symbol, "w"} and set(defaults.entries) == {7, 8}
+        c.oblige("frame:no-other-state-or-terminal-written", frame)
+        if not matches:
+            c.oblige("unexpected-outcome:message-and-nothing-recorded", isinstance(msg, str) and msg != "" and row_same and def_same, detail=repr(msg))
+            return
+        if stated == "ANY_TOKEN":
+            if existing == "different-code":
+                c.oblige("default:different-code-is-not-overwritten", isinstance(msg, str) and def_same and row_same, detail=repr(msg))
+            else:
+                c.oblige("default:code-recorded-for-the-error-state", msg is None and defaults.present[7] is True and defaults.entries[7] == "CODE" and row_same, detail=repr(msg))
+        else:
+            if existing == "different-code":
+                c.oblige("terminal:different-code-is-not-overwritten", isinstance(msg, str) and row_same and def_same, detail=repr(msg))
+            else:
+                e = row.entries[symbol]
+                ok = msg is None and row.present[symbol] is True and ((e == ("Error", "CODE")) or (isinstance(e, lr1.Error) and e.code == "CODE")) and def_same
+                c.oblige("terminal:Error(code)-recorded-for-(state,terminal)", ok, detail="%r %r" % (msg, e))
+    paths = eng.explore(harness)
+    return pyvc.collect(paths, "Parser.mark_error"), sum(1 for p in paths if p.covered)
+
+
+TARGETS["mark_error"] = target_mark_error
+
+
+def target_parse_step():
+    """lr1.Parser.parse (C08: "the parse tree is a derivation ... leaves equal to the input in order"; "the error is raised at
+    the first token ..." given the tables): one iteration of its `while True` loop from a generic configuration - a stack
+    of 1..4 (state, tree) pairs over opaque trees, a cursor into opaque tokens, and the table entry for (state, next symbol)
+    being absent / Shift / Reduce of a rule with 0, 1 or 2 right-hand-side symbols / Accept / Error:
+
+       Shift s      push (s, the current token); cursor + 1; nothing else
+       Reduce A->w  pop |w| entries, push (goto[state below][A], Reduction(A, the popped trees IN ORDER, the rule, merged location));
+                    cursor unchanged - so every tree node is an instance of a production over its children, and the leaves
+                    stay in input order (induction over steps: paper)
+       Accept       returns ParseResult(the tree on top, no error)
+       Error / no entry   returns ParseResult(None, ParseError(code - the state's default for a missing entry, else None -,
+                    cursor, current token, state, the terminals of the state's row that are not errors))"""
+    lr1 = importlib.import_module("compiler.front_end.lr1")
+    pt = importlib.import_module("compiler.util.parser_types")
+    info = pyvc.load_function("compiler.front_end.lr1.Parser.parse")
+    loops = [n for n in info.node.body if isinstance(n, ast.While) and ast.unparse(n.test) == "True"]
+    defs = [n for n in info.node.body if isinstance(n, ast.FunctionDef)]
+    if len(loops) != 1 or len(defs) != 1:
+        raise core.CheckerError("anchor mismatch: Parser.parse: expected one `while True` loop and one nested helper")
+    k = info.node.body.index(loops[0])
+    names = {}
+    for n in info.node.body[:k]:
+        if isinstance(n, ast.Assign) and len(n.targets) == 1 and isinstance(n.targets[0], ast.Name):
+            src = ast.unparse(n.value)
+            if src == "[(0, None)]":
+                names["stack"] = n.targets[0].id
+            elif src == "0":
+                names["cursor"] = n.targets[0].id
+            elif src.startswith("list(tokens)"):
+                names["tokens"] = n.targets[0].id
+    if sorted(names) != ["cursor", "stack", "tokens"]:
+        raise core.CheckerError("anchor mismatch: Parser.parse: cannot identify the stack / cursor / token list")
+    eng = pyvc.Engine()
+    eng.contract(pt.merge_source_locations, lambda interp, *trees: ("MERGED", trees), "merge_source_locations")
+    eng.contract(lr1.Reduction, lambda interp, symbol, children, production, source_location: ("Reduction", symbol, children, production, source_location), "Reduction")
+    eng.contract(lr1.ParseResult, lambda interp, tree, err: ("ParseResult", tree, err), "ParseResult")
+    eng.contract(lr1.ParseError, lambda interp, code, index, token, state, expected: ("ParseError", code, index, token, state, expected), "ParseError")
+    eng.contract(lr1.Error, lambda interp, code: lr1.Error(code), "Error")
+
+    def harness(c):
+        depth = int(c.choice("stack-depth", ["1", "2", "3", "4"]))
+        entry = c.choice("table-entry", ["none", "none-with-default-error", "Shift", "Accept", "Reduce-0", "Reduce-1", "Reduce-2", "Error"])
+        cur = int(c.choice("cursor", ["0", "1"]))
+        rlen = int(entry[-1]) if entry.startswith("Reduce") else 0
+        if rlen > depth - 1 or (entry == "Accept" and depth != 2):
+            c.covered = True          # configurations the tables cannot produce (the rhs is on the stack; Accept only over [S])
+            return
+        toks = [GObj("token%d" % i, attrs={"symbol": "t%d" % i}) for i in range(3)]
+        if entry == "Accept":
+            toks[cur] = GObj("end", attrs={"symbol": lr1.END_OF_INPUT})
+        sym = toks[cur].attrs["symbol"]
+        trees = [None] + [GObj("tree%d" % i) for i in range(1, depth)]
+        states = [0] + [10 + i for i in range(1, depth)]
+        stack0 = list(zip(states, trees))
+        stack = list(stack0)
+        rule = pt.Production("L", tuple("x%d" % i for i in range(rlen)))
+        acts = {"Shift": lr1.Shift(77, "items"), "Accept": lr1.Accept(), "Error": lr1.Error("explicit")}
+        act = acts[entry] if entry in acts else (lr1.Reduce(rule) if entry.startswith("Reduce") else None)
+        top = states[-1]
+        row = {"other": lr1.Shift(9, None), "bad": lr1.Error("x"), "red": lr1.Reduce(rule)}
+        if act is not None:
+            row[sym] = act
+        below = states[depth - 1 - rlen]
+        me = GObj("parser", attrs={"action": {top: row}, "default_errors": ({top: "default-code"} if entry == "none-with-default-error" else {}),
+                                   "goto": {below: {"L": 55}}})
+        it = pyvc.Interp(c, info)
+        it.env = {"self": me, names["tokens"]: toks, names["stack"]: stack, names["cursor"]: cur}
+        it.stmt(defs[0])
+        c.covered = True
+        returned = "no"
+        try:
+            it.block(loops[0].body)
+        except pyvc._Return as r:
+            returned = r.value
+        cur1 = it.env[names["cursor"]]
+        if entry == "Shift":
+            c.oblige("shift:pushes-the-new-state-with-the-current-token-and-advances", returned == "no" and stack == stack0 + [(77, toks[cur])] and cur1 == cur + 1, detail=repr(stack)[:200])
+        elif entry.startswith("Reduce"):
+            kids = [t for (_, t) in stack0[depth - rlen:]] if rlen else []
+            ok = returned == "no" and cur1 == cur and len(stack) == depth - rlen + 1 and stack[:-1] == stack0[:depth - rlen] and stack[-1][0] == 55
+            node = stack[-1][1] if ok else None
+            ok = ok and isinstance(node, tuple) and node[0] == "Reduction" and node[1] == "L" and list(node[2]) == kids and all(a is b for a, b in zip(node[2], kids)) and node[3] is rule
+            c.oblige("reduce:pops-the-rhs-pushes-goto-and-a-node-over-the-popped-trees-in-order", ok, detail=repr(stack)[:300])
+        elif entry == "Accept":
+            c.oblige("accept:returns-the-tree-on-top-and-no-error", returned == ("ParseResult", trees[-1], None) and returned[1] is trees[-1], detail=repr(returned)[:200])
+        else:
+            code = {"none": None, "none-with-default-error": "default-code", "Error": "explicit"}[entry]
+            ok = isinstance(returned, tuple) and returned[0] == "ParseResult" and returned[1] is None and isinstance(returned[2], tuple) and returned[2][0] == "ParseError"
+            c.oblige("error:returns-no-tree-and-a-ParseError", ok, detail=repr(returned)[:200])
+            if ok:
+                e = returned[2]
+                c.oblige("error:code-index-token-state", e[1] == code and e[2] == cur and e[3] is toks[cur] and e[4] == top, detail=repr(e)[:200])
+                c.oblige("error:expected-tokens-are-the-non-error-terminals-of-the-state", set(e[5]) == {k2 for k2, v in row.items() if not isinstance(v, lr1.Error)}, detail=repr(e[5])[:200])
+            c.oblige("error:stack-untouched", stack == stack0)
+    paths = eng.explore(harness)
+    return pyvc.collect(paths, "Parser.parse.step"), sum(1 for p in paths if p.covered)
+
+
+TARGETS["parse_step"] = target_parse_step
